@@ -221,6 +221,7 @@ class Flow:
         self.active.add(key)
         v = self.v
         ps, _ = summ.pieces(v, f, hooks=NOINLINE)
+        ps = summ.fold_accumulators(ps)
         roots = self.roots_of(f, ps)
         data_syms = {sym.sym(f.params[i]["n"]) for i in data_idx}
         T = lambda t: self.tainted(t, roots, data_syms)
@@ -235,8 +236,11 @@ class Flow:
                 lv, val = p["lv"], p["val"]
                 if not T(val):
                     if lv[0] == "idx" and lv[1][0] == "fld" and lv[1][2] == "a" and val[0] in ("call", "obj") and "operator()" in str(val[1]) \
-                            and ("glob", "uniformTorus32_distrib") in val[2] and not p.get("byref"):
+                            and ("glob", "uniformTorus32_distrib") in val[2] and ("glob", "generator") in val[2] and not p.get("byref"):
                         uniform_masks.append((lv[1][1], p["loops"], lv[2]))
+                    elif lv[0] == "idx" and lv[1][0] == "fld" and lv[1][2] == "a" and val[0] in ("call", "obj") and "operator()" in str(val[1]):
+                        self.log.append((f.name, "%s: the mask %s is drawn with %s, not from uniformTorus32_distrib with the process generator -- "
+                                                 "not accepted as a fresh mask" % (f.name, sym.show(lv)[:40], [sym.show(a)[:30] for a in val[2]])))
                     continue
                 if p.get("byref"):
                     continue
@@ -290,6 +294,16 @@ class Flow:
                         uniform_poly.append((slot[1][1], p["loops"], slot[2]))
                     continue
                 if not t_idx and not k_idx:
+                    continue
+                if name in ("memcpy", "std::memcpy", "memmove", "std::memmove") and len(args) == 3:
+                    # a copy: dst[u] = src[u]
+                    if 1 in t_idx:
+                        sl = sym.idx(args[0], ZERO)
+                        while sl[0] == "cast":
+                            sl = sl[2]
+                        if self.dest_record(sl, roots) not in SECRET_RECORDS:
+                            clear.append({"slot": sl, "val": sym.idx(args[1], ZERO), "loops": list(p["loops"]), "guards": list(p["guards"]),
+                                          "line": p["line"], "file": f.file, "chain": [f.name, name], "root": sym.root_of(sl)})
                     continue
                 if g is None or not g.file.startswith("libtfhe"):
                     if t_idx:
